@@ -132,7 +132,7 @@ func (w *ViewWorld) putDDoc(h int, changed, withV2 bool) error {
 
 func (w *ViewWorld) Alphabet(tier int) []string {
 	ops := []string{"Set/k/1a", "Set/k/2", "Set/j/1", "Set/j/arr", "SetRaw/k", "Delete/k", "Delete/j", "SetXattrs/k", "SetXattrs/j", "WriteTombstone/k", "Add/k",
-		"Purge", "SetWithMeta/k/above", "SetWithMeta/k/below", "SetWithMeta/k/last", "SetWithMeta/k/next", "B.Set", "DeleteWithMeta/j/above", "DeleteWithMeta/j/last", "PutDDoc/same", "PutDDoc/changed/h1", "PutDDoc/nov2", "Query", "QueryStale", "DropRecreate"}
+		"Purge", "SetWithMeta/k/above", "SetWithMeta/k/below", "SetWithMeta/k/last", "SetWithMeta/k/next", "B.Set", "DeleteWithMeta/j/above", "DeleteWithMeta/j/last", "PutDDoc/same", "PutDDoc/changed/h1", "PutDDoc/nov2", "Query", "QueryAll", "QueryStale", "DropRecreate"}
 	if tier > 0 {
 		ops = append(ops, "Incr/k", "RemoveXattrs/k", "WriteWithXattrs/j", "Touch/k")
 	}
@@ -249,6 +249,12 @@ func (w *ViewWorld) Apply(op string) (string, []Violation) {
 		}
 	case "Query":
 		_, err = a.View(ctx, "dd", "v1", nil)
+	case "QueryAll":
+		for n := range w.views {
+			if _, err = a.View(ctx, "dd", n, nil); err != nil {
+				break
+			}
+		}
 	case "QueryStale":
 		_, err = a.View(ctx, "dd", "v1", map[string]any{"stale": "ok"})
 	case "DropRecreate":
@@ -273,8 +279,14 @@ func (w *ViewWorld) Apply(op string) (string, []Violation) {
 	if err != nil {
 		result = "err:" + ErrClass(err)
 	}
-	w.checkViews(c)
 	return result, c.out
+}
+
+// PostCheck compares every view with the Go evaluation and with a fresh view (see gen.PostChecker).
+func (w *ViewWorld) PostCheck(op string) []Violation {
+	c := &checker{op: op, pre: "views"}
+	w.checkViews(c)
+	return c.out
 }
 
 type paramSet struct {
